@@ -16,7 +16,11 @@ def main():
     ap.add_argument("--replay")
     ap.add_argument("--build", action="store_true")
     a = ap.parse_args()
-    seed = int(os.environ.get("VERIF_SEED", "0") or 0)
+    raw = os.environ.get("VERIF_SEED", "0") or "0"
+    try:
+        seed = int(raw)
+    except ValueError:                      # any text is a seed
+        seed = int.from_bytes(raw.encode()[:8], "big")
     if a.build:
         info = fw.build(verbose=False)
         print(json.dumps({k: v for k, v in info.items() if k != "log"}))
